@@ -20,7 +20,12 @@ class C01(RecorderProp):
 
     def gen_one(self, rng, tier):
         # one case in six carries values that contain themselves / one object twice (copied value by value: in-memory)
-        case = rg.gen_history(rng, dict(self.OPTS, aliasing=True) if rng.random() < 0.17 else self.OPTS)
+        opts = dict(self.OPTS, aliasing=True) if rng.random() < 0.17 else self.OPTS
+        if rng.random() < 0.3:
+            # sites declared with what-to-do-when-missing policies (run the original, substitute value, default output result):
+            # on unchanged code nothing is missing, so none of them may ever be taken - whatever the recorded calls ended with
+            opts = dict(opts, policies=True)
+        case = rg.gen_history(rng, opts)
         runs, created = [], 0
         for run in case['runs']:
             run['enabled'] = True
